@@ -202,6 +202,161 @@ theorem schedule_reachable (P : Params) (tbl0 : Nat → Option Nat) (n : Nat) (s
   | nil => exact h
   | cons t ts ih => exact ih _ (release_reachable P tbl0 n sc t h)
 
+/-! ### server processes: threads in (process, goroutine) pairs, processes starting up -/
+
+/-- the step of a thread does not depend on which server process it (or any other thread) lives in. -/
+theorem stepP_ignores_proc (proc proc' : Nat → Nat) (P : Params) (s : Sys) (t : Nat) :
+    stepP proc P s t = stepP proc' P s t := rfl
+
+/-- a starting server process (PasswdInit on an existing semaphore) changes nothing: not the holder,
+not the index, not .PASSWDS, no thread's position. -/
+theorem init_is_noop (s : Sys) (q : Nat) : procInit s q = s := rfl
+
+/-- whatever the assignment of threads to processes and whenever processes start, the reachable
+states are exactly those of the process-free transition system. -/
+theorem reachableP_iff (proc : Nat → Nat) (P : Params) (tbl0 : Nat → Option Nat) (s : Sys) :
+    ReachableP proc P tbl0 s ↔ Reachable P tbl0 s := by
+  constructor
+  · intro h
+    induction h with
+    | init => exact .init
+    | step t _ hs ih => exact .step t ih hs
+    | procInit q _ ih => exact ih
+  · intro h
+    induction h with
+    | init => exact .init
+    | step t _ hs ih => exact .step t ih hs
+
+/-- the reachable states do not depend on the assignment. -/
+theorem reachableP_proc_irrelevant (proc proc' : Nat → Nat) (P : Params) (tbl0 : Nat → Option Nat) (s : Sys) :
+    ReachableP proc P tbl0 s ↔ ReachableP proc' P tbl0 s :=
+  (reachableP_iff proc P tbl0 s).trans (reachableP_iff proc' P tbl0 s).symm
+
+section
+variable (proc : Nat → Nat) (P : Params) (tbl0 : Nat → Option Nat) (pk : PickOK P) (hcul : P.checkUnderLock = true)
+  (h0 : ∀ i j a, tbl0 i = some a → tbl0 j = some a → i = j) (hb : ∀ k, P.cap ≤ k → tbl0 k = none)
+include pk hcul h0 hb
+
+/-- the semaphore excludes across processes: at most one registration of any process is inside the locked
+section, also while other servers start up. -/
+theorem mutual_exclusion_any_proc (s : Sys) (h : ReachableP proc P tbl0 s) (t u : Nat)
+    (ht : inLock (s.pc t) = true) (hu : inLock (s.pc u) = true) : t = u :=
+  mutual_exclusion P tbl0 pk hcul h0 hb s ((reachableP_iff proc P tbl0 s).1 h) t u ht hu
+
+/-- at most one request for the same id succeeds, wherever the requests are served. -/
+theorem at_most_one_success_any_proc (s : Sys) (h : ReachableP proc P tbl0 s) (t u k l : Nat)
+    (ht : s.pc t = .done (.ok k)) (hu : s.pc u = .done (.ok l)) (hid : P.idOf t = P.idOf u) : t = u :=
+  at_most_one_success_per_id P tbl0 pk hcul h0 hb s ((reachableP_iff proc P tbl0 s).1 h) t u k l ht hu hid
+
+/-- two successful requests never share a slot, wherever they are served. -/
+theorem slots_distinct_any_proc (s : Sys) (h : ReachableP proc P tbl0 s) (t u k : Nat)
+    (ht : s.pc t = .done (.ok k)) (hu : s.pc u = .done (.ok k)) : t = u :=
+  slots_distinct P tbl0 pk hcul h0 hb s ((reachableP_iff proc P tbl0 s).1 h) t u k ht hu
+
+/-- afterwards index and .PASSWDS agree with exactly the successful requests, wherever they were served. -/
+theorem final_agreement_any_proc (s : Sys) (h : ReachableP proc P tbl0 s) (q : quiescent s) :
+    (∀ k, s.disk k = s.table k) ∧
+    (∀ k a, tbl0 k = none → (s.table k = some a ↔ ∃ t, s.pc t = .done (.ok k) ∧ P.idOf t = a)) :=
+  final_agreement P tbl0 pk hcul h0 hb s ((reachableP_iff proc P tbl0 s).1 h) q
+
+end
+
+/-- a waiter cannot proceed while somebody holds the semaphore, in whatever process either lives: its step is disabled. -/
+theorem waiter_stays_blocked (proc : Nat → Nat) (P : Params) (s : Sys) (u w : Nat)
+    (hu : s.pc u = .checked) (hs : s.sem = some w) : stepP proc P s u = none := by
+  simp [stepP, step, hu, hs]
+
+/-! the schedule elements of the `regp` ops only take atomic steps (of some thread, of a starting process) -/
+
+theorem releaseP_reachable (proc : Nat → Nat) (P : Params) (tbl0 : Nat → Option Nat) (n : Nat) (sc : Sched) (t : Nat)
+    (h : ReachableP proc P tbl0 sc.sys) : ReachableP proc P tbl0 (releaseP P n sc t).sys := by
+  rw [reachableP_iff] at h ⊢
+  unfold releaseP
+  split
+  · exact h
+  · split
+    · split
+      · rename_i s' hs; exact .step t h hs
+      · exact h
+    · split
+      · rename_i s' hs; exact .step t h hs
+      · exact h
+    · exact runWhile_reachable P tbl0 t 6 _ h
+    · split
+      · rename_i s' hs
+        split
+        · exact wake_reachable P tbl0 n _ (.step t h hs)
+        · exact .step t h hs
+      · exact h
+    · exact h
+
+theorem wakeTid_reachable (proc : Nat → Nat) (P : Params) (tbl0 : Nat → Option Nat) (sc : Sched) (u : Nat)
+    (h : ReachableP proc P tbl0 sc.sys) : ReachableP proc P tbl0 (wakeTid P sc u).sys := by
+  unfold wakeTid
+  split
+  · split
+    · rename_i s' hs; exact .step u h hs
+    · exact h
+  · exact h
+
+theorem startProc_reachable (proc : Nat → Nat) (P : Params) (tbl0 : Nat → Option Nat) (sc : Sched) (q : Nat)
+    (h : ReachableP proc P tbl0 sc.sys) : ReachableP proc P tbl0 (startProc sc q).sys :=
+  .procInit q h
+
+theorem applyEv_reachable (proc : Nat → Nat) (P : Params) (tbl0 : Nat → Option Nat) (n : Nat) (sc : Sched) (e : Nat)
+    (h : ReachableP proc P tbl0 sc.sys) : ReachableP proc P tbl0 (applyEv P n sc e).sys := by
+  unfold applyEv
+  split
+  · exact releaseP_reachable proc P tbl0 n sc _ h
+  · exact wakeTid_reachable proc P tbl0 sc _ h
+  · exact startProc_reachable proc P tbl0 sc _ h
+
+theorem scheduleP_reachable (proc : Nat → Nat) (P : Params) (tbl0 : Nat → Option Nat) (n : Nat) (sched : List Nat)
+    (sc : Sched) (h : ReachableP proc P tbl0 sc.sys) :
+    ReachableP proc P tbl0 (sched.foldl (applyEv P n) sc).sys := by
+  induction sched generalizing sc with
+  | nil => exact h
+  | cons e es ih => exact ih _ (applyEv_reachable proc P tbl0 n sc e h)
+
+/-- when the posted semaphore goes to waiter `u`, every other waiter stays where it was: blocked, at `checked`. -/
+theorem wakeTid_others_stay (P : Params) (sc : Sched) (u v : Nat) (hv : v ≠ u) :
+    (wakeTid P sc u).blocked v = sc.blocked v := by
+  unfold wakeTid
+  split
+  · split
+    · simp [hv]
+    · rfl
+  · rfl
+
+/-- a second `wake` right after a successful one does nothing: the semaphore has exactly one taker. -/
+theorem wake_exactly_one (P : Params) (sc : Sched) (u v : Nat) (hv : v ≠ u)
+    (hu : sc.blocked u = true) (hcu : sc.sys.pc u = .checked) (hcv : sc.sys.pc v = .checked)
+    (hfree : sc.sys.sem = none) :
+    wakeTid P (wakeTid P sc u) v = wakeTid P sc u ∧ (wakeTid P sc u).sys.sem = some u := by
+  have e1 : wakeTid P sc u =
+      { sys := { sc.sys with pc := setPc sc.sys u .locked, sem := some u },
+        blocked := fun w => if w = u then false else sc.blocked w } := by
+    simp [wakeTid, hu, step, hcu, hfree]
+  rw [e1]
+  constructor
+  · unfold wakeTid
+    split
+    · simp [step, setPc, hv, hcv]
+    · rfl
+  · rfl
+
+/-- whatever schedule of releases, wake-ups and process starts the harness drives, in whatever processes the
+threads live: the state it leaves satisfies mutual exclusion. -/
+theorem scheduleP_mutual_exclusion (proc : Nat → Nat) (P : Params) (tbl0 : Nat → Option Nat) (pk : PickOK P)
+    (hcul : P.checkUnderLock = true)
+    (h0 : ∀ i j a, tbl0 i = some a → tbl0 j = some a → i = j) (hb : ∀ k, P.cap ≤ k → tbl0 k = none)
+    (n : Nat) (sched : List Nat) (t u : Nat) :
+    let s := (sched.foldl (applyEv P n) { sys := init tbl0, blocked := fun _ => false }).sys
+    inLock (s.pc t) = true → inLock (s.pc u) = true → t = u := by
+  intro s ht hu
+  exact mutual_exclusion_any_proc proc P tbl0 pk hcul h0 hb s
+    (scheduleP_reachable proc P tbl0 n sched _ .init) t u ht hu
+
 /-- the slot search the driver uses satisfies the assumption made on `pick`. -/
 theorem pickLowest_ok (cap : Nat) (idOf : Nat → Nat) (b : Bool) :
     PickOK { cap := cap, idOf := idOf, pick := pickLowest cap, checkUnderLock := b } where
